@@ -5,7 +5,27 @@ from . import core
 SIGS = [10, 12, 14, 15, 34]
 
 
+def gen_batches(rng):
+    """two (or three) batches handed out by `pending()` earlier are drained concurrently by different
+    threads while deliveries happen: `Pending` owns a reference to the slots, not to the instance"""
+    watch = rng.sample([10, 12, 14, 15], rng.randint(1, 2))
+    n = rng.choice([2, 2, 3])
+    lines = ["setup watch " + " ".join(str(s) for s in watch), "setup style A", "setup batches %d" % n]
+    tid = 0
+    for _ in range(rng.randint(1, 2)):
+        for _ in range(rng.randint(1, 3)):
+            lines.append("t%d deliver %d" % (tid, rng.choice(watch)))
+        tid += 1
+    for k in range(n):
+        lines.append("t%d drain %d" % (tid, k)); tid += 1
+    lines.append("seed %d" % rng.randint(1, 2**31))
+    lines.append("maxsteps 30000")
+    return lines
+
+
 def gen_scenario(rng, profile="mixed"):
+    if profile == "mixed" and rng.random() < 0.12:
+        return gen_batches(rng)
     watch = rng.sample(SIGS, rng.randint(1, 3))
     style = rng.choice("AB") if profile != "close" else "B"
     lines = ["setup watch " + " ".join(str(s) for s in watch), "setup style " + style]
